@@ -162,6 +162,7 @@ def prop_C13(run):
     rules_unit.unit2(run)
     rules_unit.unit3(run)
     rules_unit.span_shape(run)
+    rules_unit.src_bind(run)
     reach = reach_roots(run)
     rules_err.pair(run, reach)
     run.rules_run += ["UNIT byte offsets and character indices never meet in one value (union-find over usize values, interprocedural)",
@@ -200,7 +201,16 @@ def prop_C19(run):
     run.rules_run += ["LIM1 recursion cycles guarded", "LIM1b loop-carried Expr nesting", "LIM2 magnitude-class taint over machine arithmetic", "LIM3 user-sized loop bounds", "LIM4 capped big-integer operations"]
 
 
+def prop_C05(run):
+    import rules_op, rules_lim
+    rules_op.tab_op(run)
+    rules_op.tab_builtins(run)
+    rules_lim.lim4(run)
+    run.rules_run += ["TAB-op tokens <-> precedence levels <-> evaluator primitives <-> num-bigint operations, literal radix tables", "LIM4 checked primitives (caps, zero tests)"]
+
+
 PROPS = {
+    "C05": prop_C05,
     "C19": prop_C19,
     "C13": prop_C13,
     "C08": prop_C08,
